@@ -341,7 +341,9 @@ def pieces_jobs(rng, n, tid0):
 
 def run(tier, seed):
     rng = random.Random(seed * 15485863 + 13)
-    mcs = [core.mc("MC_AddrSem", "MC_AddrSem" if tier == "quick" else "MC_AddrSem_W4"), core.mc("MC_AddrObj")]
+    mcs = [core.mc("MC_AddrSem", "MC_AddrSem" if tier == "quick" else "MC_AddrSem_W4"), core.mc("MC_AddrObj"),
+           # SubW = set containment at the real width 32, symbolically (Apalache), with its vacuity guard
+           core.apalache("WildLemma", "Lemma"), core.apalache("WildLemma", "MasksOnly", expect_violation=True)]
     pairs, gen = core.generate("MC_AddrObj", "MC_AddrObj_gen")
     if tier == "quick":
         rs = random.Random(seed + 3)
